@@ -350,7 +350,7 @@ def main(argv=None):
 
     def limit_of(job):
         h = harness_by_name(mod, job[1])
-        return (h.wall_s if args.tier == "quick" else h.thorough_wall_s) + 90
+        return 3 * (h.wall_s if args.tier == "quick" else h.thorough_wall_s) + 90
 
     results = run_parallel(jobs, sym_worker, args.jobs, limit_of)
     for j, r in zip(jobs, results):
